@@ -321,7 +321,48 @@ func c08Burst(modes []c04Mode, maxN int) func(x *X) {
 	}
 }
 
+// well-formed but unusual traffic: a stream opened, written to and closed back to back (the close
+// frame can overtake queued data frames inside the server), and arguments larger than every
+// buffer for handlers that take a context (context-buffer mode)
+func c08Unusual(modes []c04Mode) func(x *X) {
+	return func(x *X) {
+		mode := modes[x.Choose(len(modes))]
+		script := x.Choose(3)
+		shared := x.Choose(2) == 1
+		so := mode.so
+		so.shared = shared
+		enc := wireEncoder("")
+		w, srv, cl, net := rawServer(mode.sys, so)
+		_ = w
+		switch script {
+		case 0, 1:
+			k := 2 + script*3
+			cl.WriteMessage(mkReq(enc, 7, upOpen, "StreamSvc.Push", nil))
+			for i := 0; i < k; i++ {
+				cl.WriteMessage(mkReq(enc, 7, upData, "", streamMsg(0x31, i)))
+			}
+			cl.WriteMessage(mkReq(enc, 7, upClose, "", nil))
+			cl.WriteMessage(mkReq(enc, 7, upData, "", streamMsg(0x31, 9))) // a data frame after the close
+		case 2:
+			for i, n := range []int{63, 64, 65, 200, 5000} {
+				cl.WriteMessage(mkReq(enc, uint64(20+i), nil, "Svc.EchoCtx", mkPayload(byte(0x40+i), 0, n)))
+			}
+		}
+		vs.Quiesce()
+		if !c08Probe(x, cl, enc, 999, 0x61) && !cl.p.closed[1] && !cl.p.dead {
+			x.Fail("C08/connection-wedged", "after well-formed but unusual traffic (script %d, mode %s/%s, context buffer %v) a request on the same connection is not answered", script, mode.sys.name, modeName(so), shared)
+		}
+		x.Outcome("%s/%s script=%d shared=%v", mode.sys.name, modeName(so), script, shared)
+		cl.Close()
+		if net != nil {
+			srv.Close()
+		}
+		vs.Quiesce()
+	}
+}
+
 func init() {
+	register(&Scenario{Prop: "C08", Name: "c08/unusual-wellformed", Quick: []Bound{{1, 0}, {2, 0}}, Thorough: []Bound{{3, 0}}, Body: c08Unusual(c08SrvModes), BudgetQ: 20})
 	register(&Scenario{Prop: "C08", Name: "c08/server-frames", Quick: []Bound{{0, 0}}, Thorough: []Bound{{0, 0}}, Body: c08Server(false, c08SrvModes), MinHB: 1, BudgetQ: 40})
 	register(&Scenario{Prop: "C08", Name: "c08/server-frames-all-values", Quick: []Bound{}, Thorough: []Bound{{0, 0}}, Body: c08Server(true, c08SrvModes[:1]), MinHB: 1, BudgetT: 400})
 	register(&Scenario{Prop: "C08", Name: "c08/client-frames", Quick: []Bound{{0, 0}}, Thorough: []Bound{{0, 0}}, Body: c08Client(false), MinHB: 1})
